@@ -4,7 +4,7 @@ func init() {
 	props["C05"] = &propDef{
 		info: PropInfo{
 			Bounds: []string{
-				"extended-ID checks: zoom quadruples (h1,v1,h2,v2) over a sample (quick 40, thorough all with zooms in {0,1,2,10,25,26,35} and |difference| arbitrary); all indices symbolic, both signs for f; both argument orders and the reflexive call in one harness",
+				"extended-ID checks: zoom quadruples (h1,v1,h2,v2) over a sample (quick 40, thorough all with zooms in {0,1,2,(9 thorough),10,25,26,35}, plus three 9-vs-10 quadruples in quick and |difference| arbitrary); all indices symbolic, both signs for f; both argument orders and the reflexive call in one harness",
 				"array forms: 0..2 x 0..2 elements; extended form with per-element zoom offsets on each axis chosen by five bit-mask pairs (equal, alternating, vertical-only, horizontal-only, crossed); tree form with mixed zooms inside a list in both orders",
 				"radix-tree checks: zoom pairs z1,z2 in 1..4 (quick) / 1..6 (thorough) with |z1-z2| <= 2, plus the sub-metre zooms 25..27 paired within +-1; the tree (multidimensional-radix-tree) is executed from its SSA, child tables indexed by symbolic branch paths use a hit/miss overlay model",
 			},
@@ -13,6 +13,16 @@ func init() {
 		insts: func(tier string) []*Instance {
 			var is []*Instance
 			zs := []int{0, 1, 2, 10, 25, 26, 35}
+			if tier == "thorough" {
+				zs = []int{0, 1, 2, 9, 10, 25, 26, 35}
+			} else {
+				// zoom pairs whose decimal texts order differently from their values (9 vs 10)
+				for _, q := range [][4]int{{9, 9, 10, 10}, {10, 9, 9, 10}, {9, 2, 10, 10}} {
+					in := mk("detector", "VerifC05Ext", cs("h1", q[0], "v1", q[1], "h2", q[2], "v2", q[3]))
+					in.Unwind = 40
+					is = append(is, in)
+				}
+			}
 			cnt := 0
 			for _, h1 := range zs {
 				for _, v1 := range zs {
